@@ -152,8 +152,20 @@ def run_impl(case, backend="memory"):
             return body
         for i, ops in enumerate(case["progs"]):
             ctl.spawn(mk(i, ops))
-        ctl.start()
-        ctl.run(case["sched"])
+        try:
+            ctl.start()
+            ctl.run(case["sched"])
+        except coop.HarnessStuck:
+            # a thread blocked on a lock the scheduler does not control: let everybody run free so that no
+            # leaked thread keeps such a lock, then report the case as unschedulable
+            ctl.yield_point = lambda *a, **k: None
+            for w in ctl.workers:
+                for _ in range(2000):
+                    w.go.release()
+            for w in ctl.workers:
+                if w.thread.is_alive():
+                    w.thread.join(2.0)
+            raise
         done = [w.done for w in ctl.workers]
         import copy
         results_snapshot = copy.deepcopy(results)
@@ -384,7 +396,14 @@ def short(obs):
 def execute(ctx, cases, model_ok, res, sql_every=7):
     lits, kept = [], []
     for i, case in enumerate(cases):
-        obs = run_impl(case, "memory")
+        try:
+            obs = run_impl(case, "memory")
+        except coop.HarnessStuck:
+            # a controlled thread blocked on a lock the scheduler does not know (the code under test no longer
+            # uses NameServer.lock): this schedule cannot be played; count it and go on with shorter patience
+            res.count("unschedulable")
+            coop.TIMEOUT = 1.0
+            continue
         nontriv = sum(len(p) for p in case["progs"]) >= 2 and obs["trace_len"] >= 4
         res.seen(case, nontriv)
         res.count("threads_%d" % len(case["progs"]))
@@ -397,7 +416,12 @@ def execute(ctx, cases, model_ok, res, sql_every=7):
         lits.append(c_case(case, obs))
         kept.append((case, obs))
         if i % sql_every == 0:
-            sobs = run_impl(case, "sql")
+            try:
+                sobs = run_impl(case, "sql")
+            except coop.HarnessStuck:
+                res.count("unschedulable")
+                coop.TIMEOUT = 1.0
+                continue
             res.count("sql_runs")
             for sig, what in oracle(case, sobs):
                 res.violations.append({"signature": "sql:" + sig, "what": what + " (sqlite back-end)", "case": dict(case, backend="sql")})
